@@ -162,6 +162,7 @@ CORPUS = [
     "x = 1 + \\ # why\n  2  # sum\n", "x = files(['a'] # c\n)\n", "executable('e', 'a.c', 'b.c', dependencies : [d1, d2], install : true)\n",
     "x = f(a,b,)\ny = g(k : v,)\n", "x = [\n  'a',\n  'b', # c\n]\n", "x = a.b().c().d(1, 2)\n", "x = -1\ny = not true\nz = a[0]\n",
     "project('p', 'c', version : '1.0', default_options : ['a=b', 'c=d'])\n", "x = f(a, [1, 2], b)\n", "#only a comment\n",
+    "x = files(['b.c', 'a.c'])\n", "x = files('z.c', ['b.c', 'a.c'])\n", "foo('a',)\n", "x = files(\n  'b.c', # second\n  'a.c', # first\n)\n",
 ]
 
 
